@@ -720,6 +720,7 @@ fn main() {
          on a plain and a functional predicate, EVERY distinct recording order (n=5: sorted+reversed), one transaction per assertion, each history about a fresh subject of a long-lived Nexus shared with thousands of other subjects, \
          evaluation time pinned by FOR TIME; every stored proposition (v0 and, when asserted, v1) is projected and compared with BeliefModel (status, groups, id sets, excluded, scores 1e-9, policy named), across orders (1e-12), \
          across entry points (BELIEF (?p) / triple / id / SLOT) and re-projected after unrelated writes; then repetition and monotone-confidence laws between every pair of run multisets differing by one element / one confidence. \
+         read-coordinate dimension (stage 'read coordinates'): batches of 8 subjects sharing the predicate are projected at now AND at the snapshot taken right after recording, bound by AS OF SEQ or by read.snapshot_token, once at once and once after later unrelated writes (all four combinations alternate); nothing about those subjects is written after the snapshot, so every read must match BeliefModel and the read at now (incl. BELIEF SLOT / triple / id at the historical coordinate). \
          distinct non-trivial = multiset with >= 2 assertions on one side",
     );
     run.assume("actors and evidence ids are engine-assigned ids of 3 Concepts / 3 Evidence records; confidences from {unstated,.3,.6,.9}; thresholds compared in exact arithmetic");
